@@ -392,3 +392,26 @@ Example c04_redeclare_example :
            ++ [124;32;99;32;32;124;32;32;32;124;10]
            ++ [43;45;45;45;45;43;45;45;45;43;10]).
 Proof. cbv zeta. repeat split; vm_compute; reflexivity. Qed.
+(* ---------------------------------------------------------------- source tie
+   (notes/SOURCE_TIE_3.md).  texttable/decoration/strings.go: WithinWidthAligned
+   is TRANSLATED from the Go text by tools/go2coq (Generated/WidthStrSrc.v,
+   regenerated and compared on every run of check.py C04).  For every width
+   string (also W < 0), every available width (also negative) and every alignment
+   value (nil, align.Left / Right / Center, any other) the translation returns
+   what the hand model returns: the same padded string, or Panic exactly where
+   the model panics.  No hypothesis. *)
+From Tab Require Import Base.GoSem Base.GoText Generated.WidthStrSrc Proofs.WidthStrSrcTie.
+
+Theorem c04_source_is_model : forall ws available how,
+  src_WithinWidthAligned ws available how = Done (within_width_aligned ws available how).
+Proof. exact src_WithinWidthAligned_is_model. Qed.
+Print Assumptions c04_source_is_model.
+
+(* property level: for a measured line (s, w), a column width cw and an alignment
+   resolving to a (nil = left), the translated source returns the spec slot,
+   flattened: the text unchanged, padded with spaces per the three padding rules *)
+Theorem c04_source_slot : forall s w cw al a,
+  TextMeasure.norm_al al = AlKnown a ->
+  src_WithinWidthAligned (mkWS s (Z.of_nat w)) (Z.of_nat cw) al = Done (Ok (flat_segs (spec_slot cw a (s, w)))).
+Proof. exact src_WithinWidthAligned_slot. Qed.
+Print Assumptions c04_source_slot.
